@@ -95,6 +95,33 @@ def r10_1(rep: Report) -> None:
         if isinstance(it, ast.Name):
             ds = [a_ for a_ in ast.walk(fn) if isinstance(a_, ast.Assign) and norm(a_.targets[0]) == it.id]
             it = ds[0].value if len(ds) == 1 else it
+        if isinstance(lp.iter, ast.Name) and not (isinstance(it, ast.Call) and call_name(it) == 'DrmContext'):
+            # two phases: hooks = [d.moov for d in DrmContext(..) if d.moov is not None] under the
+            # encryption test (an empty list otherwise), then one pssh per hook
+            ds = [a_ for a_ in ast.walk(fn) if isinstance(a_, (ast.Assign, ast.AnnAssign))
+                  and getattr(a_, 'value', None) is not None
+                  and norm(a_.targets[0] if isinstance(a_, ast.Assign) else a_.target) == lp.iter.id]
+            comps = [a_ for a_ in ds if isinstance(a_.value, ast.ListComp)]
+            empties = [a_ for a_ in ds if isinstance(a_.value, (ast.List, ast.Tuple)) and not a_.value.elts]
+            if len(comps) == 1 and len(comps) + len(empties) == len(ds):
+                comp = comps[0].value
+                g = comp.generators[0] if len(comp.generators) == 1 else None
+                if g is not None and isinstance(g.target, ast.Name) and isinstance(g.iter, ast.Call) \
+                        and call_name(g.iter) == 'DrmContext' and norm(comp.elt) == f'{g.target.id}.moov' \
+                        and any(norm(i_) == f'{g.target.id}.moov is not None' for i_ in g.ifs):
+                    guarded = any(isinstance(a_, ast.If) and re.fullmatch(r'\w+\.encrypted', norm(a_.test))
+                                  and any(comps[0] is b_ or any(comps[0] is y for y in ast.walk(b_)) for b_ in a_.body)
+                                  for a_ in ancestors(comps[0]))
+                    arg = n.args[0]
+                    src = arg
+                    if isinstance(arg, ast.Name):
+                        d2 = [a_ for a_ in ast.walk(lp) if isinstance(a_, ast.Assign) and norm(a_.targets[0]) == arg.id]
+                        src = d2[0].value if len(d2) == 1 else None
+                    if not guarded:
+                        return False, 'the list of moov hooks is filled outside the encryption test of the representation'
+                    if src is None or not re.fullmatch(rf'{loopvar}\(\w+\.default_kid\)', norm(src)):
+                        return False, f'the appended child is not `{loopvar}(<representation>.default_kid)`'
+                    return True, ''
         if not (isinstance(it, ast.Call) and call_name(it) == 'DrmContext'):
             return False, f'the loop iterates `{norm(lp.iter)}`, not a DrmContext(...)'
         arg = n.args[0]
@@ -337,21 +364,59 @@ def location_gating(rep: Report, rid: str) -> None:
                          f'segment generator {sorted(gm)}', fn)
 
 
+def load_fragment_facts(lf: ast.FunctionDef) -> dict:
+    """what load_fragment hands to mp4.Options and to the BufferedReader window, as terms
+    (sa/termeval.py): keyword arguments written out or collected in a dict and passed with **"""
+    from ..termeval import Opaque, TermEval
+    ev = TermEval({})
+    modes: set = set()
+    windows: list[tuple[str, str]] = []
+
+    def text(v):
+        return v.text if isinstance(v, Opaque) else repr(v)
+
+    def kwargs_of(call, env) -> dict:
+        out = {}
+        for k in call.keywords:
+            if k.arg is None:
+                v = ev.eval(k.value, env)
+                if isinstance(v, dict):
+                    out.update(v)
+                else:
+                    out['**'] = v
+            else:
+                out[k.arg] = ev.eval(k.value, env)
+        return out
+
+    def observe(call, env):
+        cn = (call_name(call) or '')
+        if cn.endswith('Options') and cn.split('.')[-1] == 'Options':
+            modes.add(kwargs_of(call, env).get('mode', None))
+        elif cn.split('.')[-1] == 'BufferedReader':
+            kw = kwargs_of(call, env)
+            windows.append((text(kw.get('offset')), text(kw.get('size'))))
+    ev.observe = observe
+    ev.run(lf, {})
+    return {'modes': modes, 'windows': windows}
+
+
 def r10_4(rep: Report) -> None:
     rid = 'R10.4'
     tree = rep.repo.tree(MR)
     cls = need(find_class(tree, 'MediaRequestBase'), 'MediaRequestBase')
     lf = need(find_func(cls, 'load_fragment'), 'load_fragment')
     c = f'{MR}::MediaRequestBase.load_fragment'
-    if "mode='rw'" in norm(lf):
+    facts = load_fragment_facts(lf)
+    if facts['modes'] == {'rw'}:
         rep.ok(rid, c, "mode='rw'")
     else:
-        rep.fail(rid, c, "mode='rw'", 'fragments are not loaded read-write', lf)
-    if 'offset=frag.pos, size=frag.size' in norm(lf) and 'media.representation.segments[seg_index]' in norm(lf):
+        rep.fail(rid, c, "mode='rw'", f'fragments are not loaded read-write (mode {sorted(map(str, facts["modes"]))})', lf)
+    seg = 'media.representation.segments[seg_index]'
+    if facts['windows'] and all(w == (f'{seg}.pos', f'{seg}.size') for w in facts['windows']):
         rep.ok(rid, c, 'window is the stored segment')
     else:
         rep.fail(rid, c, 'window is the stored segment',
-                 'the fragment window is not (frag.pos, frag.size) of segments[seg_index]', lf)
+                 f'the fragment window is not (frag.pos, frag.size) of segments[seg_index]: {facts["windows"]}', lf)
     fn = need(find_func(cls, 'generate_init_segment'), 'generate_init_segment')
     c2 = f'{MR}::MediaRequestBase.generate_init_segment'
     t = norm(fn)
